@@ -12,30 +12,43 @@ theorem le32_length (n : Nat) : (le32 n).length = 4 := rfl
 theorem rdle32_le32 (n : Nat) (h : n < 4294967296) (r : Bytes) : rdle32 (le32 n ++ r) = n := by
   simp [le32, rdle32, UInt8.toNat_ofNat']; omega
 
+/-- the only fact about the regenerated `strlenSize` that is used: the entry header has room for
+    the uint32 length -/
+theorem strlen_ge : u32Size ≤ Facts.strlenSize := by decide
+
+theorem hdr_length (n : Nat) : (hdr n).length = Facts.strlenSize := by
+  have := strlen_ge
+  unfold u32Size at this
+  simp [hdr, le32_length, u32Size]; omega
+
+theorem rdle32_hdr (n : Nat) (h : n < 4294967296) (r : Bytes) : rdle32 (hdr n ++ r) = n := by
+  unfold hdr; rw [List.append_assoc]; exact rdle32_le32 n h _
+
 /-- Get at the offset of a packed entry -/
 theorem storeGet_at (pre v post : Bytes) (hv : v.length ≤ maxU32) :
-    storeGet ⟨pre ++ (le32 (v.length % two32) ++ v ++ post)⟩ (pre.length : Int) = .ok v := by
-  have h4 : Facts.strlenSize = 4 := rfl
+    storeGet ⟨pre ++ (hdr (v.length % two32) ++ v ++ post)⟩ (pre.length : Int) = .ok v := by
+  have hge := strlen_ge
   have hmod : v.length % two32 = v.length := Nat.mod_eq_of_lt (by unfold maxU32 at hv; unfold two32; omega)
   unfold storeGet
-  simp only [h4, hmod, Int.toNat_natCast]
-  have hlen : (pre ++ (le32 v.length ++ v ++ post)).length = pre.length + (4 + v.length + post.length) := by
-    simp [le32_length]; omega
-  have c1 : ¬ ((pre.length : Int) < 0 ∨ (pre.length : Int) ≥ ((pre ++ (le32 v.length ++ v ++ post)).length : Nat)) := by
-    rw [hlen]; omega
-  have c2 : ¬ (pre.length + 4 > (pre ++ (le32 v.length ++ v ++ post)).length) := by rw [hlen]; omega
-  have hrd : rdle32 ((pre ++ (le32 v.length ++ v ++ post)).drop pre.length) = v.length := by
+  simp only [hmod, Int.toNat_natCast]
+  have hlen : (pre ++ (hdr v.length ++ v ++ post)).length =
+      pre.length + (Facts.strlenSize + v.length + post.length) := by
+    simp [hdr_length]; omega
+  have c1 : ¬ ((pre.length : Int) < 0 ∨ (pre.length : Int) ≥ ((pre ++ (hdr v.length ++ v ++ post)).length : Nat)) := by
+    rw [hlen]; unfold u32Size at hge; omega
+  have c2 : ¬ (pre.length + u32Size > (pre ++ (hdr v.length ++ v ++ post)).length) := by rw [hlen]; omega
+  have hrd : rdle32 ((pre ++ (hdr v.length ++ v ++ post)).drop pre.length) = v.length := by
     rw [List.drop_left, List.append_assoc]
-    exact rdle32_le32 _ (by unfold maxU32 at hv; omega) _
+    exact rdle32_hdr _ (by unfold maxU32 at hv; omega) _
   simp only [c1, c2, if_false, hrd]
-  have c3 : ¬ (pre.length + 4 + v.length > (pre ++ (le32 v.length ++ v ++ post)).length) := by
+  have c3 : ¬ (pre.length + Facts.strlenSize + v.length > (pre ++ (hdr v.length ++ v ++ post)).length) := by
     rw [hlen]; omega
   simp only [c3, if_false]
   congr 1
-  have : pre ++ (le32 v.length ++ v ++ post) = (pre ++ le32 v.length) ++ (v ++ post) := by
+  have : pre ++ (hdr v.length ++ v ++ post) = (pre ++ hdr v.length) ++ (v ++ post) := by
     simp [List.append_assoc]
   rw [this]
-  have hl : pre.length + 4 = (pre ++ le32 v.length).length := by simp [le32_length]
+  have hl : pre.length + Facts.strlenSize = (pre ++ hdr v.length).length := by simp [hdr_length]
   rw [hl, List.drop_left, List.take_left]
 
 theorem packLoop_length (vv : List Bytes) (off : Nat) : (packLoop vv off).2.length = vv.length := by
@@ -60,7 +73,6 @@ theorem lookup_pack (s : Bytes) (kk vv : List Bytes) (off : Nat) (pre post : Byt
       have hv0 : v.length ≤ maxU32 := hv v List.mem_cons_self
       have hv' : ∀ x ∈ vv, x.length ≤ maxU32 := fun x hx => hv x (List.mem_cons_of_mem _ hx)
       have hlen' : kk.length = vv.length := by simpa using hlen
-      have h4 : Facts.strlenSize = 4 := rfl
       simp only [packLoop, List.zip_cons_cons, List.lookup]
       cases hsk : s == k with
       | true =>
@@ -75,8 +87,8 @@ theorem lookup_pack (s : Bytes) (kk vv : List Bytes) (off : Nat) (pre post : Byt
         · intro h; cases h
       | false =>
         simp only
-        have ih' := ih vv (off + Facts.strlenSize + v.length) (pre ++ (le32 (v.length % two32) ++ v)) hlen' hv'
-          (by simp [le32_length, h4, hoff]; omega)
+        have ih' := ih vv (off + Facts.strlenSize + v.length) (pre ++ (hdr (v.length % two32) ++ v)) hlen' hv'
+          (by simp [hdr_length, hoff]; omega)
         simpa [List.append_assoc] using ih'
 
 end Verif.SMap
